@@ -117,3 +117,84 @@ func enumAll(r *kit.Rec, check string, alpha []string, maxLen int, prefix, suffi
 	}
 	wg.Wait()
 }
+
+// enumSeq evaluates eval on every sequence of lexemes (joined by single spaces) of length
+// <= fullLen over alpha, and on sequences up to viableLen whose prefix of length fullLen (and
+// every longer proper prefix) is a viable prefix according to eval. Jobs are split by the
+// first two lexemes; job k belongs to shard k mod nshards.
+func enumSeq(r *kit.Rec, check, prefix string, alpha []string, fullLen, viableLen int, eval func(text string, n int) (viol string, nontrivial, viable bool)) {
+	shard, nshards := kit.Shard()
+	type job struct{ a, b int }
+	var jobs []job
+	if shard == 0 {
+		jobs = append(jobs, job{-1, -1})
+	}
+	k := 0
+	for a := range alpha {
+		for b := range alpha {
+			if k%nshards == shard && fullLen >= 2 {
+				jobs = append(jobs, job{a, b})
+			}
+			k++
+		}
+	}
+	ch := make(chan job, len(jobs))
+	for _, j := range jobs {
+		ch <- j
+	}
+	close(ch)
+	var nviol, sample atomic.Int32
+	var wg sync.WaitGroup
+	for w := 0; w < workers(); w++ {
+		wg.Add(1)
+		go func() {
+			defer wg.Done()
+			var evals, nontriv, extended int64
+			one := func(text string, n int) bool {
+				if prefix != "" {
+					text = prefix + " " + text
+				}
+				v, nt, viable := eval(text, n)
+				evals++
+				if n > fullLen {
+					extended++
+				}
+				if nt {
+					nontriv++
+					if nontriv%4099 == 1 && sample.Add(1) <= 3 {
+						r.Sample(check, text)
+					}
+				}
+				if v != "" && nviol.Add(1) <= 3 {
+					r.Violation(check, inputCase{text}, "%s", v)
+				}
+				return viable
+			}
+			var rec func(cur string, depth int)
+			rec = func(cur string, depth int) {
+				viable := one(cur, depth)
+				if nviol.Load() > 3 || depth >= viableLen || (depth >= fullLen && !viable) {
+					return
+				}
+				for _, sym := range alpha {
+					rec(cur+" "+sym, depth+1)
+				}
+			}
+			for j := range ch {
+				if j.a < 0 {
+					one("", 0)
+					if fullLen >= 1 {
+						for _, sym := range alpha {
+							one(sym, 1)
+						}
+					}
+					continue
+				}
+				rec(alpha[j.a]+" "+alpha[j.b], 2)
+			}
+			r.AddEnum(evals, nontriv)
+			r.ClassN(check+":beyond-full-length(viable-prefix extension)", extended)
+		}()
+	}
+	wg.Wait()
+}
